@@ -223,6 +223,36 @@ def kill_chain(F, rec, key_prefix):
         rec.site(rf, None, 'peer remover: %d HashMap::remove site(s)' % len(rm))
         rec.need(ok and rm, key_prefix + 'peer-not-removed/' + rp, rf, None,
                  'a path through the peer remover does not remove the peer from the map')
+    reset_on_kill(F, rec)
+
+
+def reset_on_kill(F, rec):
+    """the peer remover stores Missing into the dead peer's assigned element exactly when that
+    element is not Have (must-execute store on the != Have edge, no other condition)"""
+    # the remover stores Missing for the peer's piece unless it is Have (must-execute under != Have)
+    for rp in peer_removers(F):
+        rf = F.body(rp)
+        st = status_stores(rf, 'Missing')
+        for bi, si, le, v in st:
+            idxp = access_path(le[2][1]) if le[0] == 'call' and len(le[2]) > 1 else ''
+            rec.site(rf, bi, 'reset store %s = Missing' % show(le)[:80])
+            rec.need('piece_index' in (idxp or ''), 'reset-wrong-index', rf, bi,
+                     'the reset does not address the dead peer\'s assigned piece (%s)' % idxp)
+            guard_ok = False
+            for sb in rf.switches():
+                ce, ts, o = rf.cond(sb)
+                x = ce
+                if x[0] == 'call' and x[4].get('name') in ('ne', 'eq') and any(y[0] == 'agg' and y[3] == 'Have' for y in walk(x)):
+                    tt, ff = rf.bool_edges(sb)
+                    ne_edge = tt if x[4].get('name') == 'ne' else ff
+                    other = ff if x[4].get('name') == 'ne' else tt
+                    # on the !=Have edge the store is unavoidable before return
+                    r = rf.reach_from(ne_edge, cut_blocks=[bi])
+                    if not (set(rf.return_blocks()) & r) and bi not in rf.reach_from(other, cut_blocks=[sb]):
+                        guard_ok = True
+            rec.need(guard_ok, 'reset-not-guarded', rf, bi,
+                     'the reset to Missing is not exactly "when the piece is not Have"')
+        rec.need(bool(st), 'no-reset', rf, None, 'the peer remover no longer resets the piece to Missing')
 
 
 def peer_removers(F):
@@ -447,3 +477,33 @@ def cmp_orientation(F, closure_path, field):
             asc = pa < pb
             return (not asc) if rev else asc
     return None
+
+
+def s_await(F, rec):
+    """side rule S-AWAIT: every future created from a crate-local async fn is awaited in the
+    creating body (flows into IntoFuture::into_future) or is a branch future of a select!."""
+    n = 0
+    for f in F.user_fns():
+        awaited = set()
+        for bb in f.calls():
+            t = f.blocks[bb]['t']
+            if (t.get('callee') or '') == 'std::future::IntoFuture::into_future':
+                a = f.expr_operand(t['args'][0])
+                if a[0] == 'call':
+                    awaited.add(a[3])
+        sel = mirq.select_info(f) if f.coroutine else []
+        sel_calls = set()
+        for s in sel:
+            for x in (s.get('futures') or []):
+                if x[0] == 'call':
+                    sel_calls.add(x[3])
+        for bb, tgt in local_calls(F, f):
+            if F.is_async(tgt):
+                n += 1
+                ok = bb in awaited or bb in sel_calls
+                if not ok:
+                    rec.violation('future-not-awaited/%s/%s' % (F.owner_fn(f).path, tgt.split('::')[-1]), f, bb,
+                                  'the future returned by async fn %s is created here but never awaited in this body: the call has no effect, '
+                                  'and every path rule that treats the call site as "the call happened" would be fooled' % tgt)
+    rec.site('crate', None, '%d calls of crate-local async fns, all awaited or select! branches' % n)
+    return n
